@@ -56,13 +56,13 @@ def ast_to_py(v, depth=0):
     if z3.is_app(v) and v.sort().kind() == z3.Z3_DATATYPE_SORT:
         name = v.decl().name()
         args = [ast_to_py(v.arg(i), depth + 1) for i in range(v.num_args())]
-        if name == "none" or name == "none_v":
+        if name.startswith("none_"):
             return None
-        if name == "some":
+        if name.startswith("some_"):
             return args[0]
-        if name == "mk":
+        if name.startswith("mk_"):
             return {"$mk": str(v.sort()), "fields": args}
-        if re.fullmatch(r"u\d+", name):
+        if re.fullmatch(r"U_.*_u\d+", name):
             return args[0] if args else None
         return {"$ctor": name, "args": args}
     return {"$raw": str(v)[:200]}
